@@ -44,7 +44,7 @@ var allRegisteredAlgs = append(append(append([]int{}, sigAlgs...), macAlgs...), 
 
 // C05: the protected algorithm identifier binds the key
 func genMsgAlg(r *rand.Rand, n int) []string {
-	var out []string
+	var out, more []string // more: appended after the rest, the fixed slots keep their positions
 	for i := 0; i < n; i++ {
 		kind := kindsAll[r.Intn(len(kindsAll))]
 		algs := algsForKind(kind)
@@ -119,11 +119,19 @@ func genMsgAlg(r *rand.Rand, n int) []string {
 		}
 		out = append(out, p2.consumeLine(p2.data, p2.ext, p2.pubKeys()))
 		// (c) consume with a key of another algorithm, sharing the key bytes when the family allows
+		otherKey := ""
 		if !isIn(alg, sigAlgs) && keySizeOf(other) == keySizeOf(alg) && !isIn(other, sigAlgs) {
-			out = append(out, p2.consumeLine(p2.data, p2.ext, []string{symKeyTok(other, kb)}))
+			otherKey = symKeyTok(other, kb)
 		} else {
-			k2 := genMsgKey(r, other, false)
-			out = append(out, p2.consumeLine(p2.data, p2.ext, []string{k2.pub}))
+			otherKey = genMsgKey(r, other, false).pub
+		}
+		out = append(out, p2.consumeLine(p2.data, p2.ext, []string{otherKey}))
+		// (c') the same decoded object asked twice: first under the right key, then under the other one, and the other way
+		// round — the answer is that of a fresh object under the second key (no algorithm check is remembered)
+		if kind != "sign" && len(p2.pubKeys()) == 1 {
+			right := p2.pubKeys()[0]
+			more = append(more, fmt.Sprintf("msg.otherkey %s %s %s %s | %s | %s", p2.kind, p2.mode, p2.ext, hx(p2.data), right, otherKey),
+				fmt.Sprintf("msg.otherkey %s %s %s %s | %s | %s", p2.kind, p2.mode, p2.ext, hx(p2.data), otherKey, right))
 		}
 		// (e) fixed slots, every (kind, algorithm) pair in turn: a hand-built message labelled with an identifier that is not
 		// the key's — a sibling of it, or one the library does not implement — and authenticated by the key: refused
@@ -159,7 +167,7 @@ func genMsgAlg(r *rand.Rand, n int) []string {
 			out = append(out, p3.consumeLine(p3.data, p3.ext, []string{symKeyTok(other, kb)}))
 		}
 	}
-	return out
+	return append(out, more...)
 }
 
 // labelledMsg: a one-layer message (or a COSE_Sign with one signature) whose protected bucket names `label`, an algorithm
